@@ -1,9 +1,9 @@
 package checks
 
 import (
+	"fmt"
 	"go/constant"
 	"go/token"
-	"fmt"
 	"go/types"
 	"sort"
 	"strings"
